@@ -55,6 +55,16 @@ def main(out):
     want = open(os.path.join(os.path.dirname(__file__), 'templates', 'read_non_inline_start.py.txt')).read()
     if src != want:
         raise TranslateError('Parser._read_non_inline_start differs from the code that Model/Override.v mirrors')
+    # pre_parse is modelled by hand (Model/PreParse.v): its code, docstring and comments aside, must be the code the model mirrors
+    def norm(fn):
+        t = ast.parse(textwrap.dedent(inspect.getsource(fn)))
+        f = t.body[0]
+        if f.body and isinstance(f.body[0], ast.Expr) and isinstance(getattr(f.body[0], 'value', None), ast.Constant) and isinstance(f.body[0].value.value, str):
+            f.body = f.body[1:]
+        return ast.unparse(t)
+    want = open(os.path.join(os.path.dirname(__file__), 'templates', 'pre_parse.py.txt')).read()
+    if norm(A.pre_parse) != want:
+        raise TranslateError('AkomaNtosoParser.pre_parse differs from the code that Model/PreParse.v mirrors')
     extra = [n for n in vars(P.Parser) if n.startswith('_read_') and n != '_read_non_inline_start']
     if extra:
         raise TranslateError('Parser overrides further rules: %s' % extra)
